@@ -6,7 +6,7 @@
   * every seeded change written by a sub-agent (seeded/<id>/patch.diff) must be reported by the check of its own property
     (or stay silent when its meta.json says it is benign on the repaired tree, or end as analysis-broken, exit 2, when its
     meta.json says the change swaps an anchored construct for one the analysis does not decide).
-usage: selftest.py [--only substr] [--jobs N] [--kind mutants|benign|all]
+usage: selftest.py [--only substr] [--jobs N] [--kind mutants|benign|refactors|all]
 Not a MANIFEST command; scratch copies are removed after each case."""
 import argparse, os, shutil, subprocess, sys, tempfile, importlib.util
 from concurrent.futures import ThreadPoolExecutor
@@ -33,6 +33,19 @@ def seeded_cases():
         exp = meta.get("expect_on_current_tree")
         out.append((dict(name="seed-" + os.path.basename(d), ids=[meta["property"]], rule=None, subs=[], patch=os.path.join(d, "patch.diff")),
                     "benign" if exp == "silent" else "undecided" if exp == "analysis-broken" else "mutants"))
+    return out
+
+def refactor_cases():
+    """behaviour-preserving changes written by sub-agents that saw nothing of /verif (selftest/refactors/<id>/patch.diff): no check may
+    report a violation on any of them. Exit 2 (a shape the analysis does not decide) is tolerated and printed; meta "undecided" lists
+    the properties for which that is the recorded outcome."""
+    import glob, json
+    out = []
+    for d in sorted(glob.glob(os.path.join(VERIF, "selftest", "refactors", "*"))):
+        if not os.path.exists(os.path.join(d, "patch.diff")):
+            continue
+        out.append((dict(name="refactor-" + os.path.basename(d), ids=["C%02d" % i for i in range(1, 21)], rule=None, subs=[],
+                         patch=os.path.join(d, "patch.diff")), "noalarm"))
     return out
 
 def apply(tmp, case):
@@ -68,6 +81,12 @@ def run_case(case, kind):
                     ok = False
                     msgs.append("%s rc=%d expected VIOLATION by %s; got: %s" % (pid, r.returncode, case.get("rule"),
                                 " | ".join(l.strip()[:160] for l in r.stdout.splitlines()[:4]) + r.stderr[-300:]))
+            elif kind == "noalarm":
+                if r.returncode not in (0, 2):
+                    ok = False
+                    msgs.append("%s rc=%d expected no alarm; got: %s" % (pid, r.returncode, " | ".join(l.strip()[:200] for l in r.stdout.splitlines()[:4]) + r.stderr[-300:]))
+                elif r.returncode == 2:
+                    msgs.append("%s undecided (exit 2)" % pid)
             elif kind == "undecided":
                 # the change replaces a construct the rule is anchored in by something the analysis does not decide: exit 2, never a pass
                 if r.returncode != 2:
@@ -94,6 +113,8 @@ def main():
         todo += [(c, "benign") for c in load("benign")]
     if a.kind == "all":
         todo += seeded_cases()
+    if a.kind in ("all", "refactors"):
+        todo += refactor_cases()
     todo = [(c, k) for (c, k) in todo if a.only in c["name"] or a.only in ",".join(c["ids"])]
     bad = 0
     with ThreadPoolExecutor(a.jobs) as ex:
